@@ -43,6 +43,9 @@ type c16Case struct {
 	// questions are asked at all (empty = at every invocation).  A plugin that
 	// asks only now and then must get the right answer too.
 	Query []bool `json:"query,omitempty"`
+	// Kinds: which interceptors the builder gets - 0 both, 1 statement only,
+	// 2 expression only (the answers must not depend on what else is installed)
+	Kinds int `json:"kinds,omitempty"`
 	// Reentrant: the interceptors do not call next() but parse the construct
 	// themselves through the parser's exported functions (Parse*Statement for the
 	// current keyword; ParsePrefixExpression + ParseRemainingExpression), as the
@@ -104,7 +107,14 @@ func c16Run(c c16Case, m Mode) (obs []c16Obs, final parser.ContextType, finalInF
 				obs = append(obs, c16Obs{false, kind + "(after nested parse)", t.Start.Line, t.Start.Column, t.Literal, p.IsInFunction(), p.CurrentContext()})
 			}
 		}
-		pb.UseStatementInterceptor(func(p *parser.Parser, next func() ast.Statement) ast.Statement {
+		useStmt, useExpr := pb.UseStatementInterceptor, pb.UseExpressionInterceptor
+		if c.Kinds == 2 {
+			useStmt = func(parser.Interceptor[ast.Statement]) *parser.Builder { return pb }
+		}
+		if c.Kinds == 1 {
+			useExpr = func(parser.Interceptor[ast.Expression]) *parser.Builder { return pb }
+		}
+		useStmt(func(p *parser.Parser, next func() ast.Statement) ast.Statement {
 			observe("stmt", p)
 			if c.Reentrant {
 				switch p.CurrentToken.Type {
@@ -147,7 +157,7 @@ func c16Run(c c16Case, m Mode) (obs []c16Obs, final parser.ContextType, finalInF
 			}
 			return next()
 		})
-		pb.UseExpressionInterceptor(func(p *parser.Parser, next func() ast.Expression) ast.Expression {
+		useExpr(func(p *parser.Parser, next func() ast.Expression) ast.Expression {
 			observe("expr", p)
 			if c.Reentrant {
 				return p.ParseRemainingExpression(p.ParsePrefixExpression())
@@ -296,6 +306,7 @@ func c16Gen(t *rapid.T, rec *evid.Recorder) c16Case {
 	}
 	c.Toks = c16Table(toks)
 	c.Reentrant = r.Intn(3, "reentrant") == 0
+	c.Kinds = r.Pick("kinds", 4, 1, 2)
 	if c.Reentrant {
 		rec.Class("reentrant-interceptors")
 	}
